@@ -1,0 +1,12 @@
+//go:build verif
+
+package autofile
+
+// Hooks for the /verif C15 (write-ahead log) check: the two periodic limit checks that
+// processTicks runs on a timer, callable deterministically.
+
+// VerifCheckHeadSizeLimit runs checkHeadSizeLimit once.
+func (g *Group) VerifCheckHeadSizeLimit() { g.checkHeadSizeLimit() }
+
+// VerifCheckTotalSizeLimit runs checkTotalSizeLimit once.
+func (g *Group) VerifCheckTotalSizeLimit() { g.checkTotalSizeLimit() }
